@@ -270,6 +270,8 @@ def execute(rec: dict, res: RunResult) -> None:
     if pre.get("ref_alt") is not None:
         res.count("reference_rule_reregistered_with_alt")
     envs = [mk() for _ in range(rec["n_env"])]
+    # the caller's own handles on the tables it created (defaultrefs): they are what it passes on later
+    handles = [e.get("references") for e in envs]
     model: list[dict] = [dict() for _ in range(rec["n_env"])]     # key -> first definition (generator's knowledge)
     logs: list[list[str]] = [[] for _ in range(rec["n_env"])]
     seeded_blocks: list[set] = [set() for _ in range(rec["n_env"])]
@@ -394,6 +396,13 @@ def execute(rec: dict, res: RunResult) -> None:
     # ---- the probe document
     p = rec["probe"]
     md, env = insts[p["inst"]], envs[p["env"]]
+    handed_on = False
+    if rec["env_type"] == "defaultrefs" and rec.get("hand_on", True) and handles[p["env"]] is not None:
+        # a site-wide references table placed into a NEW per-document env: what the earlier parses defined must be in the
+        # caller's own object (duplicates live in the per-document envs and are not compared in this mode)
+        env = {"references": handles[p["env"]]}
+        handed_on = True
+        res.count("callers_references_table_handed_to_a_new_env")
     # the generated document goes LAST: it may end inside an open fence / HTML block, which would swallow
     # anything appended to it
     D = ""
@@ -426,7 +435,7 @@ def execute(rec: dict, res: RunResult) -> None:
         res.fail("SEED_VS_PREPEND", f"references after the history {_strip_maps(env.get('references', {}))} != after "
                                     f"the one-go parse {_strip_maps(env2.get('references', {}))}", "references")
         return
-    if _strip_maps_list(env.get("duplicate_refs", [])) != _strip_maps_list(env2.get("duplicate_refs", [])):
+    if not handed_on and _strip_maps_list(env.get("duplicate_refs", [])) != _strip_maps_list(env2.get("duplicate_refs", [])):
         res.fail("SEED_VS_PREPEND", f"duplicate_refs after the history != after the one-go parse: "
                                     f"{_strip_maps_list(env.get('duplicate_refs', []))[:4]} vs "
                                     f"{_strip_maps_list(env2.get('duplicate_refs', []))[:4]}", "duplicates")
@@ -499,7 +508,7 @@ class C16(Engine):
                        "inline_form_compared", "instances_with_a_past", "link_hook_reassigned_before_history",
                        "reference_rule_reregistered_with_alt", "definition_directly_under_paragraph_text",
                        "definitions_inside_nested_subdocument_container", "definitions_inside_blockquote_or_list_item",
-                       "label_used_before_defined"]
+                       "label_used_before_defined", "callers_references_table_handed_to_a_new_env"]
 
     def budget(self, tier):
         if tier == "quick":
